@@ -25,6 +25,8 @@ pub enum ROp {
     Drop(usize),
     Reserve(usize),
     Clear,
+    /// push_back(byte) (not called by the decoder today)
+    PushBack,
 }
 
 pub struct RingSys {
@@ -92,6 +94,10 @@ fn apply_ring(r: &mut RingBuffer, op: &ROp, data: &[u8]) -> bool {
             r.reserve(*len);
             // SAFETY: same contract as above
             unsafe { r.extend_from_within_unchecked_branchless(*start, *len) };
+            true
+        }
+        ROp::PushBack => {
+            r.push_back(data[0]);
             true
         }
         ROp::Drop(n) => {
@@ -225,13 +231,14 @@ impl System for RingSys {
             ops.push(ROp::Reserve(n));
         }
         ops.push(ROp::Clear);
+        ops.push(ROp::PushBack);
         ops
     }
     fn step(&self, l: &mut RLive, op: &ROp) -> Result<(), String> {
         let before = l.a.verif_state();
         let n = match op {
             ROp::Extend(n) | ROp::Reader(n, _, _) => *n,
-            ROp::Fill(_) => 1,
+            ROp::Fill(_) | ROp::PushBack => 1,
             _ => 0,
         };
         let data = fresh_bytes(&mut l.ctr, n);
@@ -266,6 +273,7 @@ impl System for RingSys {
                 l.model.drain(..*n);
             }
             ROp::Reserve(_) => {}
+            ROp::PushBack => l.model.push_back(data[0]),
             ROp::Clear => l.model.clear(),
         }
         if !meter::canaries_intact() {
@@ -297,6 +305,7 @@ pub fn rop_json(op: &ROp) -> Value {
         ROp::Drop(n) => json!(["drop", n]),
         ROp::Reserve(n) => json!(["reserve", n]),
         ROp::Clear => json!(["clear"]),
+        ROp::PushBack => json!(["push_back"]),
     }
 }
 pub fn rop_from(v: &Value) -> ROp {
@@ -311,6 +320,7 @@ pub fn rop_from(v: &Value) -> ROp {
         "drop" => ROp::Drop(u(1)),
         "reserve" => ROp::Reserve(u(1)),
         "clear" => ROp::Clear,
+        "push_back" => ROp::PushBack,
         x => panic!("unknown op {x}"),
     }
 }
@@ -627,6 +637,7 @@ fn rop_job(op: &ROp) -> String {
         ROp::Drop(n) => format!("d{n}"),
         ROp::Reserve(n) => format!("v{n}"),
         ROp::Clear => "c".to_string(),
+        ROp::PushBack => "p".to_string(),
     }
 }
 
